@@ -592,3 +592,45 @@ def constructor_inv(ctx, rule):
     ctx.floor(rule + ".ctor", n, 1, what="construction sites of the multipart stream")
     if n > 1:
         ctx.violation(rule, rule + "|ctor-count", "the multipart stream is constructed at %d sites; Inv was established for one constructor only" % n)
+
+
+def stream_frame(ctx, rule):
+    """frame rule of the multipart stream's step: a poll of the current part that returns Pending or a data chunk leaves
+    that same part stream installed and the position unchanged (otherwise the next poll restarts the part from its
+    first byte: duplicated data, or a livelock on a stream that is Pending before every chunk)"""
+    adt, roles, pn = find_stream(ctx)
+    outs = run_case(ctx, adt, roles, pn, 1, True)
+    n = 0
+    for o in outs:
+        if o.kind != "return" or not cons_zone(o).feasible():
+            continue
+        kind, payload = poll_shape(o.value)
+        polls = [e for e in o.events if e["k"] == "call" and "poll_next" in (e["callee"].get("path") or "") and e["fn"] == pn]
+        if not polls:
+            continue
+        pr = polls[0]["result"]
+        chunk = ("payload", ("payload", ("payload", pr, "Ready", "0"), "Some", "0"), "Ok", "0")
+        from_cur = (kind == "Pending" and o.cons.variant_of(pr) == "Pending") or (kind == "Ok" and payload == chunk)
+        if not from_cur:
+            continue
+        n += 1
+        cur2 = final_read(ctx, o, SELF, (("f", roles["cur"]),))
+        stt = final_read(ctx, o, SELF, (("f", roles["state"]),))
+        rem2 = final_read(ctx, o, SELF, (("f", roles["remaining"]),))
+        bad = []
+        same = False
+        if is_agg(cur2) and cur2[3] == "Some":
+            x = agg_get(cur2, "0")
+            same = x == CURS or (isinstance(x, tuple) and x[0] == "havoc" and repr(CURS) in repr(x))
+        if not same:
+            bad.append("the part stream being polled is not kept installed (current-part field afterwards: %s)" % short(cur2, 60))
+        if stt != pack(H, const(1)):
+            bad.append("the position changes (%s)" % short(stt, 40))
+        if kind == "Pending" and rem2 != REM:
+            bad.append("the owed-bytes counter changes on Pending")
+        inst = "poll of the current part -> %s" % kind
+        if bad:
+            ctx.violation(rule, "%s|%s|%s" % (rule, kind, bad[0][:40]), "%s: %s; the next poll would restart the part" % (inst, "; ".join(bad)), where=_last_where(o))
+        else:
+            ctx.ok(rule, "%s keeps the same part stream installed and the position unchanged" % inst)
+    ctx.floor(rule, n, 2, what="rows that poll the current part and return Pending / data")
